@@ -1,5 +1,6 @@
 """Runs the real asphalt.core.merge_config on the given pairs; reports the result, both
 arguments as they are after the call, and whether the result is a new object."""
+import collections
 import copy
 import json
 import sys
@@ -7,10 +8,14 @@ import sys
 from asphalt.core import merge_config
 
 
+class Cfg(dict):
+    """a dict subclass, as configuration loaders hand them out"""
+
+
 def main():
     payload = json.load(sys.stdin)
     out = []
-    for case in payload["cases"]:
+    for ci, case in enumerate(payload["cases"]):
         o, v = case[0], case[1]
         # the same dict object may sit at several places of an argument (a YAML alias, a reused variable):
         # every non-empty dict that occurs (by value) more than once in the overrides is made one object
@@ -27,6 +32,28 @@ def main():
                     seen[key] = x
                 return x
             v = share(v)
+        if case[3] if len(case) > 3 else ci % 2:
+            # "a dictionary" is anything that IS a dict: every other nested dictionary of both arguments is an
+            # OrderedDict or an instance of a plain dict subclass (aliasing preserved)
+            n = [0]
+            memo = {}
+
+            def sub(x, top=False):
+                if isinstance(x, dict):
+                    if id(x) in memo:
+                        return memo[id(x)]
+                    n[0] += 1
+                    y = x if (top or n[0] % 2) else (collections.OrderedDict() if n[0] % 4 else Cfg())
+                    memo[id(x)] = y
+                    items = [(k, sub(val)) for k, val in list(x.items())]
+                    if y is not x:
+                        y.update(items)
+                    else:
+                        for k, val in items:
+                            x[k] = val
+                    return y
+                return x
+            o, v = sub(o, True), sub(v, True)
         o0, v0 = copy.deepcopy(o), copy.deepcopy(v)
         try:
             r = merge_config(o, v)
